@@ -386,6 +386,12 @@ func doCheck(scratch, prop, tier string) int {
 	}
 	bin := build(scratch)
 	buildS := time.Since(start).Seconds()
+	// replay files of earlier runs of this check are stale
+	if old, _ := filepath.Glob(filepath.Join(verifDir, "out", "replays", prop+"-*.json")); len(old) > 0 {
+		for _, f := range old {
+			os.Remove(f)
+		}
+	}
 	budget := 35
 	seeds := []uint64{20260925}
 	if tier == "thorough" {
